@@ -163,6 +163,55 @@ theorem popNew_spec (s : State) (mb mdl : Nat) (hmb : mb ≤ maxPacketBufferSize
           · simp [tail, nfData, hn, nfDataOf]
           · intro h; exact absurd h hd
 
+/-- more about the frame `popNewStreamFrame` returns: it respects the data limit, and when it comes out
+    of `nextFrame` it is a prefix of it, the rest stays in `nextFrame`, `dataForWriting` is untouched -/
+theorem popNew_extra (s : State) (mb mdl : Nat) (f : Frame) (hf : (popNewStreamFrame s mb mdl).2.1 = some f) :
+    f.data.length ≤ mdl ∧
+    ∀ nf, s.nextFrame = some nf →
+      (popNewStreamFrame s mb mdl).1.dataForWriting = s.dataForWriting ∧
+      f.data ++ nfData (popNewStreamFrame s mb mdl).1 = nf.data := by
+  unfold popNewStreamFrame at hf ⊢
+  cases hn : s.nextFrame with
+  | some nf =>
+    simp only [hn] at hf ⊢
+    by_cases hm : min mdl (nf.maxDataLen s.sid mb) = 0
+    · simp [hm] at hf
+    · simp only [hm, ↓reduceIte] at hf ⊢
+      by_cases hlt : nf.data.length > min mdl (nf.maxDataLen s.sid mb)
+      · simp only [hlt, ↓reduceIte, Option.some.injEq] at hf
+        simp only [hlt, ↓reduceIte]
+        subst hf
+        refine ⟨by simp only [List.length_take]; omega, fun nf' hnf' => ?_⟩
+        simp only [Option.some.injEq] at hnf'
+        subst hnf'
+        exact ⟨trivial, by simp [nfData, nfDataOf]⟩
+      · simp only [hlt, ↓reduceIte, Option.some.injEq] at hf
+        simp only [hlt, ↓reduceIte]
+        subst hf
+        refine ⟨by omega, fun nf' hnf' => ?_⟩
+        simp only [Option.some.injEq] at hnf'
+        subst hnf'
+        exact ⟨trivial, by simp [nfData, nfDataOf]⟩
+  | none =>
+    simp only [hn] at hf ⊢
+    refine ⟨?_, fun nf h => by simp at h⟩
+    by_cases hm : Frame.maxDataLen s.sid { offset := s.writeOffset, data := [], fin := false, dataLenPresent := true } mb = 0
+    · simp [hm] at hf
+    · simp only [hm, ↓reduceIte] at hf
+      by_cases hall : s.dataForWriting.length ≤ min (Frame.maxDataLen s.sid { offset := s.writeOffset, data := [], fin := false, dataLenPresent := true } mb) mdl
+      · simp only [hall, ↓reduceIte] at hf
+        split at hf
+        · simp at hf
+        · simp only [Option.some.injEq] at hf
+          subst hf
+          simp only; omega
+      · simp only [hall, ↓reduceIte] at hf
+        split at hf
+        · simp at hf
+        · simp only [Option.some.injEq] at hf
+          subst hf
+          simp only [List.length_take]; omega
+
 /-- the five things `popNewOrRetransmittedStreamFrame` can do on a live stream -/
 inductive PopKind (s : State) (mb : Nat) (s' : State) (out : PopOut) : Prop
   | nothing (h1 : s' = s) (h2 : out.frame = none)
@@ -179,6 +228,10 @@ inductive PopKind (s : State) (mb : Nat) (s' : State) (out : PopOut) : Prop
       (hfin : fin = (s.finishedWriting && s1.dataForWriting.isEmpty && s1.nextFrame.isNone && !s.finSent))
       (h1 : s' = { s1 with writeOffset := s.writeOffset + f0.data.length, finSent := s.finSent || fin })
       (h2 : out.frame = some { f0 with fin := fin })
+      (hmono : nfLen s ≤ f0.data.length + nfLen s1)
+
+theorem nfLen_eq (s : State) : nfLen s = (nfData s).length := by
+  unfold nfLen nfData nfDataOf; cases s.nextFrame <;> rfl
 
 theorem retransQ_eta (s : State) {q : List Frame} (h : s.retransQ = q) : { s with retransQ := q } = s := by
   cases s; simp_all
@@ -227,8 +280,9 @@ theorem popInner_live (s : State) (mb win : Nat) (nb : Bool) (hl : Live s) (hmb 
         exact .nothing rfl rfl
       · simp only [hw, ↓reduceIte]
         obtain ⟨h1, h2⟩ := popNew_spec s mb win hmb (by omega) hnf he
+        have hx := popNew_extra s mb win
         rcases hp : popNewStreamFrame s mb win with ⟨s1, fo, more⟩
-        rw [hp] at h1 h2
+        rw [hp] at h1 h2 hx
         cases fo with
         | none =>
           simp only at h1 ⊢
@@ -241,10 +295,19 @@ theorem popInner_live (s : State) (mb win : Nat) (nb : Bool) (hl : Live s) (hmb 
           have hfw : s1.finishedWriting = s.finishedWriting := by rw [hs1]
           have hfs : s1.finSent = s.finSent := by rw [hs1]
           have hwo : s1.writeOffset = s.writeOffset := by rw [hs1]
-          refine .newData f0 s1 hq hok (s.finishedWriting && s1.dataForWriting.isEmpty && s1.nextFrame.isNone && !s.finSent) rfl ?_ ?_
+          refine .newData f0 s1 hq hok (s.finishedWriting && s1.dataForWriting.isEmpty && s1.nextFrame.isNone && !s.finSent) rfl ?_ ?_ ?_
           · rw [hfw, hfs, hwo]
             cases hc : (s.finishedWriting && s1.dataForWriting.isEmpty && s1.nextFrame.isNone && !s.finSent) <;> simp
           · rw [hfw, hfs]
+          · obtain ⟨_, hbuf⟩ := hx f0 rfl
+            simp only at hbuf
+            cases hn : s.nextFrame with
+            | none => simp [nfLen, hn]
+            | some nf =>
+              have := congrArg List.length (hbuf nf hn).2
+              simp only [List.length_append] at this
+              rw [nfLen_eq s1]
+              simp only [nfLen, hn]; omega
 
 /-! ### Write -/
 
